@@ -53,10 +53,28 @@ Procedure for each change: edit the source; run the test suite (must be unchange
 Read the relevant library source first (it is small: `icontract/_checkers.py`, `_decorators.py`, `_metaclass.py`, `_recompute.py`, `_represent.py`, `_types.py`, `_globals.py`). Your final answer: a brief description of the two changes (file, function, what was changed, what it needs to manifest) and confirmation of the test/demo results you observed.
 """
 
+# round 5: re-introduce what a recent fix: commit repaired, in a different way (the commits are part of the worktree's
+# own git history, so the agent still sees nothing but the property and its worktree)
+FIXES = {
+    "C01": ["ed3f58f"], "C02": ["ed3f58f"], "C03": ["3ca852e", "6189f55", "734defe"], "C04": ["a8c8963", "8114c3c", "a3f40e9"],
+    "C05": ["c71f4c0"], "C06": ["ba17563", "14676ac", "4ec175a"], "C07": ["b355af9", "4ec175a", "beef00c"], "C08": ["8857650", "8114c3c"],
+    "C09": ["ed3f58f"], "C10": ["dd89c99", "f0f4b08", "3ca852e"], "C11": ["dd89c99", "ed3f58f"], "C12": ["d15cbe3"], "C13": ["f540614"],
+    "C14": ["8295018", "734defe"], "C16": ["a3f40e9"], "C17": ["f2cf747", "a3f40e9", "81d5716"], "C19": ["8857650"],
+}
+REGRESS = """Make the two changes DIFFERENT IN KIND from each other: touch different functions (ideally different modules), and break different clauses of the property.
+
+IMPORTANT for this round: the git history of your worktree contains recent bug-fix commits (`git log --oneline | grep fix:`; look at them with `git show <hash>`). {relevant}At least ONE of your two changes must RE-INTRODUCE the misbehaviour that one of these fix commits repaired -- but NOT as a revert and not by editing the repaired lines back: achieve it differently, as a later maintainer who has forgotten the fix might -- a new fast path or cache that bypasses the repaired code, a refactoring that loses the repaired behaviour at another site (a helper, a caller, a sibling sync/async copy, the metaclass vs. the decorator path), an equivalent-looking rewrite of the repaired logic that is not equivalent for the special case the fix was about, a second code path that reaches the same state without going through the repaired one. The other change is free (any realistic subtle regression of the property). Any part of the library may be touched."""
+
 for line in open("/verif/properties.jsonl"):
     rec = json.loads(line)
     pid = rec["id"]
     wt = prefix + pid[1:]
-    text = TEMPLATE.format(wt=wt, out=out, pid=pid, record=json.dumps(rec, indent=1), style=REFACTOR if style == "refactor" else QUIET)
+    if style == "regress":
+        hashes = FIXES.get(pid, [])
+        relevant = ("The ones most relevant to this property: %s. " % ", ".join(hashes)) if hashes else "Pick whichever of them touches this property's mechanism (if none does, both changes are free). "
+        st = REGRESS.format(relevant=relevant)
+    else:
+        st = REFACTOR if style == "refactor" else QUIET
+    text = TEMPLATE.format(wt=wt, out=out, pid=pid, record=json.dumps(rec, indent=1), style=st)
     open(os.path.join(out, "prompt_%s.txt" % pid), "w").write(text)
 print("wrote 20 prompts to", out)
